@@ -23,6 +23,16 @@ CHECKS = {
             "The reference dictionary is a pinned copy (no-drift only); the reference codec is trusted after passing the "
             "repository's fixture vectors and its own round trip.",
             "5/C02"),
+    "C04": ("exploration",
+            "generated login variants, chunkings, coalesced frames, cut-off histories and schedules against a Noise responder "
+            "double under the deterministic scheduler",
+            "The real transport layers perform XX / IK / XXfallback handshakes against an independent responder built on "
+            "dissononce; the oracle checks the decrypted client payload (account, passive flag, push name, user agent), the "
+            "edge routing header, that a changed server key is written exactly once, in-order intact traffic both ways incl. frames "
+            "coalesced with the handshake reply, a reported failure for a corrupted reply, and that no task stays blocked.",
+            "The responder double stands for the server; certificates are not validated; interleavings at lock/queue operations "
+            "and function calls of the anchored files.",
+            "5/C04"),
     "C05": ("exploration",
             "exhaustive enumeration of stream partitions + Hypothesis-generated streams against a concatenation model",
             "Every partition of every stream of 1-3 frames of length 1-3 (0.7 M cases; lengths 1-4 in the thorough tier) is "
